@@ -163,22 +163,42 @@ func waitScripts(m *Meta, tier string, rng *rand.Rand, out string) {
 			cancelAt = 20 + 40*rng.Intn(4)
 		}
 		failSub := rng.Intn(15) == 0
+		// half of the cases take the timeout from a parameter, and the compiled program has
+		// already been run once with another timeout (5 ms, no event) before the measured run
+		viaParam := rng.Intn(2) == 0
 		wg.Add(1)
 		sem <- struct{}{}
 		go func(i int) {
 			defer wg.Done()
 			defer func() { <-sem }()
 			obs := &fakeObs{script: script, failSub: failSub}
+			var curObs atomic.Value
+			curObs.Store(obs)
 			c := compiler.New()
-			Must(c.RegisterFunction("OBS", func(context.Context, ...core.Value) (core.Value, error) { return obs, nil }))
-			q := fmt.Sprintf(`LET o = OBS() LET e = (WAITFOR EVENT "x" IN o TIMEOUT %d) RETURN e`, timeout)
+			Must(c.RegisterFunction("OBS", func(context.Context, ...core.Value) (core.Value, error) { return curObs.Load().(*fakeObs), nil }))
+			tm := fmt.Sprint(timeout)
+			if viaParam {
+				tm = "@t"
+			}
+			q := fmt.Sprintf(`LET o = OBS() LET e = (WAITFOR EVENT "x" IN o TIMEOUT %s) RETURN e`, tm)
 			if hasFilter {
-				q = fmt.Sprintf(`LET o = OBS() LET e = (WAITFOR EVENT "x" IN o FILTER CURRENT >= %d TIMEOUT %d) RETURN e`, filterMin, timeout)
+				q = fmt.Sprintf(`LET o = OBS() LET e = (WAITFOR EVENT "x" IN o FILTER CURRENT >= %d TIMEOUT %s) RETURN e`, filterMin, tm)
 			}
 			prog, err := c.Compile(q)
 			if err != nil {
 				report(map[string]interface{}{"key": "waitfor-compile|" + q, "what": "WAITFOR query does not compile: " + err.Error(), "tags": []string{"waitfor"}})
 				return
+			}
+			opts := []runtime.Option{runtime.WithLog(io.Discard)}
+			if viaParam {
+				// the earlier run of the same program: another observable, another timeout
+				curObs.Store(&fakeObs{})
+				func() {
+					defer func() { recover() }()
+					prog.Run(context.Background(), runtime.WithLog(io.Discard), runtime.WithParam("t", 5))
+				}()
+				curObs.Store(obs)
+				opts = append(opts, runtime.WithParam("t", timeout))
 			}
 			ctx, cancel := context.WithCancel(context.Background())
 			defer cancel()
@@ -194,7 +214,7 @@ func waitScripts(m *Meta, tier string, rng *rand.Rand, out string) {
 						rerr = fmt.Errorf("panic escaped: %v", r)
 					}
 				}()
-				outb, rerr = prog.Run(ctx, runtime.WithLog(io.Discard))
+				outb, rerr = prog.Run(ctx, opts...)
 			}()
 			el := int(time.Since(start) / time.Millisecond)
 			deadline := timeout
@@ -211,7 +231,7 @@ func waitScripts(m *Meta, tier string, rng *rand.Rand, out string) {
 				got = "val:" + string(outb)
 				gotCoq = "(WOVal (" + string(outb) + "))"
 			}
-			desc := map[string]interface{}{"script": script, "filter": hasFilter, "filter_min": filterMin, "timeout_ms": timeout, "cancel_ms": cancelAt, "fail_subscribe": failSub, "got": got, "elapsed_ms": el}
+			desc := map[string]interface{}{"timeout_via_parameter_after_an_earlier_run_with_5ms": viaParam, "script": script, "filter": hasFilter, "filter_min": filterMin, "timeout_ms": timeout, "cancel_ms": cancelAt, "fail_subscribe": failSub, "got": got, "elapsed_ms": el}
 			key := fmt.Sprintf("waitfor|%v|%v|%d|%d|%d|%v", script, hasFilter, filterMin, timeout, cancelAt, failSub)
 			// promptness: must return within the deadline (+ generous slack)
 			limit := deadline + 400
@@ -249,26 +269,43 @@ func waitScripts(m *Meta, tier string, rng *rand.Rand, out string) {
 		}(i)
 	}
 	// WAIT released by cancellation / deadline
-	for _, d := range []int{10, 50, 120} {
-		wg.Add(1)
-		go func(d int) {
-			defer wg.Done()
-			c := compiler.New()
-			prog, err := c.Compile(`WAIT(5000) RETURN 1`)
-			Must(err)
-			ctx, cancel := context.WithTimeout(context.Background(), time.Duration(d)*time.Millisecond)
-			defer cancel()
-			start := time.Now()
-			_, rerr := prog.Run(ctx, runtime.WithLog(io.Discard))
-			el := int(time.Since(start) / time.Millisecond)
-			if rerr == nil || el > d+600 {
-				report(map[string]interface{}{"key": fmt.Sprintf("wait|%d", d), "what": fmt.Sprintf("WAIT(5000) with a %d ms deadline returned err=%v after %d ms", d, rerr, el), "tags": []string{"wait"}})
+	// (the WAIT is cut short: Run must report an error whether or not anything is evaluated after it,
+	// and whether the context ends by its deadline or by an explicit cancel)
+	for wi, wq := range []string{`WAIT(5000) RETURN 1`, `RETURN WAIT(5000)`, `FOR i IN [1] RETURN WAIT(5000)`, `RETURN true ? WAIT(5000) : 0`, `LET x = WAIT(5000) RETURN x`, `RETURN [WAIT(5000)]`} {
+		for _, d := range []int{10, 50, 120} {
+			for _, byCancel := range []bool{false, true} {
+				wg.Add(1)
+				go func(wi int, wq string, d int, byCancel bool) {
+					defer wg.Done()
+					c := compiler.New()
+					prog, err := c.Compile(wq)
+					Must(err)
+					var ctx context.Context
+					var cancel context.CancelFunc
+					if byCancel {
+						ctx, cancel = context.WithCancel(context.Background())
+						time.AfterFunc(time.Duration(d)*time.Millisecond, cancel)
+					} else {
+						ctx, cancel = context.WithTimeout(context.Background(), time.Duration(d)*time.Millisecond)
+					}
+					defer cancel()
+					start := time.Now()
+					_, rerr := prog.Run(ctx, runtime.WithLog(io.Discard))
+					el := int(time.Since(start) / time.Millisecond)
+					if rerr == nil || el > d+600 {
+						how := "deadline"
+						if byCancel {
+							how = "cancel"
+						}
+						report(map[string]interface{}{"key": fmt.Sprintf("wait|%d|%d|%v", wi, d, byCancel), "what": fmt.Sprintf("%s with a %d ms %s returned err=%v after %d ms (a cut-short run must return an error, promptly)", wq, d, how, rerr, el), "tags": []string{"wait"}})
+					}
+					mu.Lock()
+					m.Evaluations++
+					m.Count("wait-" + map[bool]string{false: "deadline", true: "cancel"}[byCancel])
+					mu.Unlock()
+				}(wi, wq, d, byCancel)
 			}
-			mu.Lock()
-			m.Evaluations++
-			m.Count("wait-deadline")
-			mu.Unlock()
-		}(d)
+		}
 	}
 	wg.Wait()
 	f, err := os.Create(filepath.Join(out, "casesw.v"))
